@@ -102,3 +102,5 @@ Definition k07_1 (s : store) : bool :=
   || existsb (fun sx => match e_deleted (snd sx) with None => s_epoch s <? e_created (snd sx) | Some _ => false end) (s_edges s).
 (** C07-K2: bytes behind the decoded snapshot *)
 Definition k07_2 (bs : bytes) (consumed : nat) : bool := (consumed <? length bs)%nat.
+(** C07-K3: the snapshot names the largest id (the id counter computation [id + 1] overflows) *)
+Definition k07_3 (sn : snapshot) : bool := names_max_id sn.
